@@ -119,3 +119,19 @@ Theorem inv_b_decides_on_replay : forall kind l,
   inv_b kind (replay l empty_st) = true <-> HotComplete kind (replay l empty_st).
 Proof. exact inv_b_decides_on_replay_lemma. Qed.
 Print Assumptions inv_b_decides_on_replay.
+
+(* The same with the tree-pack set computed as the code does (get_tree_packs over the index sections
+   found in the source): if the index files name every tree pack - in `packs` OR, after a prune that
+   only marked it, in `packs_to_delete` - the repair makes the hot store complete again.  Breaks when
+   get_tree_packs stops reading one of the two sections. *)
+Theorem repair_restores_hot_from_index : forall kind content idx x ds,
+  index_names kind idx ->
+  I kind content x ->
+  let y := repair_all_idx idx (damage_hot ds x) in
+  HotComplete kind y /\ (forall k b, get k (cold x) = Some b -> get k (cold y) = Some b).
+Proof. intros kind content idx x ds. exact (repair_from_index_lemma kind content idx x ds eq_refl). Qed.
+Print Assumptions repair_restores_hot_from_index.
+
+Example index_names_sat :
+  index_names (fun i => N.eqb i 2) [mkie SecPacksToDelete 2 Tree; mkie SecPacks 3 Data].
+Proof. intro i. cbn. destruct (N.eqb i 2) eqn:E; rewrite ?orb_false_r, ?andb_false_r; reflexivity. Qed.
